@@ -15,7 +15,7 @@ from vf import pool_engine as pe
 
 def text_for(case, w, g, attempt):
     """Unique single-line text per (writer, id, attempt); decorated with hostile but line-break-free characters."""
-    deco = case.get("deco", ["", " ", "ž", "日本", "😀", "\t", ",;\"'\\", "  lead", "trail  ", "\x00", " "])
+    deco = case.get("deco", ["", " ", "ž", "日本", "😀", "\t", ",;\"'\\", "  lead", "trail  ", "\x00", " ", "\x0b", "\x85", "\u2028", "\x1c", "\x0c"])      # the last five: line boundaries for str.splitlines(), not for a file
     d = deco[(w * 7 + g * 3 + attempt) % len(deco)]
     return f"{d}<w{w}|g{g}|a{attempt}>{d}"
 
@@ -116,12 +116,24 @@ def drive_storage(case, sh, state):
     st = TextFileStorage(d, "storage", number_of_data=case.get("presize"))
     final = {}
     state["storage_final"] = final
-    universe = sorted({g for ops in case["writers"] for g, _, _ in ops} | set(case.get("extra_ids", [])))
+    universe = sorted({g for ops in case["writers"] for g, _, _ in ops} | set(case.get("extra_ids", []))
+                      | set(case.get("parent_stores_first", [])) | set(case.get("parent_stores_during", [])))
     if not universe:
         universe = [0]
     start, stop = ctx.Event(), ctx.Event()
     procs = []
     first_phase = []
+
+    def parent_store(g):
+        t = text_for(case, 100, g, 0)
+        sh.log("store_call", w=100, g=g, t=t)
+        try:
+            st[g] = t
+            sh.log("store_ret", w=100, g=g, t=t, out="ok")
+        except ValueError:
+            sh.log("store_ret", w=100, g=g, t=t, out="ValueError")
+        except Exception as e:
+            sh.log("store_ret", w=100, g=g, t=t, out=f"exc:{type(e).__name__}: {e}")
     late = None
     if case.get("late_user"):
         go_late = ctx.Event()
@@ -131,6 +143,10 @@ def drive_storage(case, sh, state):
         lp.start()
         b.close()
         late = (lp, a, go_late, t3)
+    for g in case.get("parent_stores_first", []):
+        # the parent is a writer itself and has stored before it forks: the forked writers inherit its open file and its
+        # writer identity (they all append to one file from then on)
+        parent_store(g)
     if case.get("parent_reads_before_fork") and len(case["writers"]) >= 2:
         # two phases: the first writer runs to completion, the parent reads everything it stored (and thereby opens its
         # read handles), and only then the remaining writers and the readers are forked - they inherit those handles
@@ -172,7 +188,10 @@ def drive_storage(case, sh, state):
     start.set()
     rng = random.Random(case.get("seed", 0))
     k = 0
-    while any(p.is_alive() for kind, p in procs if kind == "w"):
+    during = list(case.get("parent_stores_during", []))
+    while any(p.is_alive() for kind, p in procs if kind == "w") or during:
+        if during:
+            parent_store(during.pop(0))
         if case.get("parent_polls", True) and k < case.get("max_reads", 300):
             _read_once(st, sh, "P", rng.choice(universe))
             k += 1
